@@ -3,6 +3,7 @@ package pongo2
 import (
 	"bytes"
 	"fmt"
+	"reflect"
 )
 
 type nodeFilterCall struct {
@@ -35,13 +36,8 @@ func (node *tagFilterNode) Execute(ctx *ExecutionContext, writer TemplateWriter)
 			}
 			// The body arrives escaped and the result is written as it is: text a filter takes from its
 			// parameter (default:name, add:name) must not enter it unescaped. Literals are the template's own text.
-			_, isLiteral := call.paramExpr.(*stringResolver)
-			_, isStringer := param.Interface().(fmt.Stringer)
-			if ctx.Autoescape && !isLiteral && !param.safe && (param.IsString() || isStringer) {
-				param, err = ApplyFilter("escape", param, nil)
-				if err != nil {
-					return err
-				}
+			if _, isLiteral := call.paramExpr.(*stringResolver); ctx.Autoescape && !isLiteral {
+				param = escapedFilterParam(param, 0)
 			}
 		} else {
 			param = AsValue(nil)
@@ -56,6 +52,40 @@ func (node *tagFilterNode) Execute(ctx *ExecutionContext, writer TemplateWriter)
 	writer.WriteString(value.String())
 
 	return nil
+}
+
+// escapedFilterParam returns the parameter with the text in it HTML-escaped: a string or fmt.Stringer itself, the
+// items of a sequence and the values of a map (to a small depth). Values marked safe, numbers and the like stay.
+func escapedFilterParam(param *Value, depth int) *Value {
+	if param.safe || param.IsNil() {
+		return param
+	}
+	if _, isStringer := param.Interface().(fmt.Stringer); isStringer || param.IsString() {
+		escaped, err := filterEscape(param, nil)
+		if err != nil {
+			return param
+		}
+		return escaped
+	}
+	if depth > 4 {
+		return param
+	}
+	rv := param.getResolvedValue()
+	switch rv.Kind() {
+	case reflect.Slice, reflect.Array:
+		items := make([]any, rv.Len())
+		for i := range items {
+			items[i] = escapedFilterParam(param.Index(i), depth+1).Interface()
+		}
+		return AsValue(items)
+	case reflect.Map:
+		out := reflect.MakeMapWithSize(reflect.MapOf(rv.Type().Key(), reflect.TypeOf((*any)(nil)).Elem()), rv.Len())
+		for _, key := range rv.MapKeys() {
+			out.SetMapIndex(key, reflect.ValueOf(escapedFilterParam(AsValue(rv.MapIndex(key)), depth+1).Interface()))
+		}
+		return AsValue(out.Interface())
+	}
+	return param
 }
 
 func tagFilterParser(doc *Parser, start *Token, arguments *Parser) (INodeTag, *Error) {
